@@ -250,3 +250,7 @@ Definition cinit (c0 : core) (progs : list (list cop)) := LogConc.init_state cop
 (* sequential meaning of one concurrent operation on the abstract logger *)
 Definition sapply (x : slog) (o : cop) : slog :=
   match o with CWith fs => add_fields fs x | CSetLevel l => set_level l x end.
+
+(* the level after the operations in linearisation order: that of the last SetLevel *)
+Definition lin_level (tr : list cop) (l0 : level) : level :=
+  fold_left (fun l o => match o with CSetLevel l' => l' | CWith _ => l end) tr l0.
